@@ -372,7 +372,9 @@ def run_discover(R, res, lines, expect, tags):
         return False
     vals, space, _, _ = state_strs(o.hyperparameters, C)
     lines.append(dict(suite="programs", op="discover", prog=to_model_prog(prog, C), space=init_space, values=init_vals,
-                      allow=allow, tune=tune, fills=[C.code(v) for v in fills]))
+                      allow=allow, tune=tune, fills=[]))      # ensure_active_values fills in defaults (F14 repaired): nothing random to hand to the model
+    if fills:
+        tags["unseeded-fill-in-discovery"] += 1
     if err:
         expect.append(None)       # which entries are named in the error message is not compared; the rejection itself is checked below
         tags["rejected"] += 1
